@@ -1,6 +1,7 @@
 package imgworld
 
 import (
+	"context"
 	"encoding/json"
 	"fmt"
 	"io/fs"
@@ -11,8 +12,15 @@ import (
 	"syscall"
 	"testing"
 
+	scalibr "github.com/google/osv-scalibr"
 	"github.com/google/osv-scalibr/artifact/image/layerscanning/image"
 	"github.com/google/osv-scalibr/artifact/image/unpack"
+	"github.com/google/osv-scalibr/extractor"
+	"github.com/google/osv-scalibr/extractor/filesystem"
+	"github.com/google/osv-scalibr/extractor/filesystem/language/dotnet/dotnetpe"
+	"github.com/google/osv-scalibr/inventory"
+	"github.com/google/osv-scalibr/plugin"
+	"github.com/google/osv-scalibr/purl"
 	"github.com/google/osv-scalibr/verifshim"
 	"pgregory.net/rapid"
 	"verif/sim"
@@ -28,9 +36,18 @@ type C06 struct{}
 //	"tarball"    image.FromTarball(real docker-save tarball of the same layers) then CleanUp
 //	"unpack"     Unpacker.UnpackSquashed(target, SimImage)
 //	"unpack-tar" Unpacker.UnpackSquashedFromTarball(target, file) with Layers[0] as the squashed archive
+//	"scan"       FromV1Image, then Scanner.ScanContainer over the loaded image with the real dotnet/pe
+//	             extractor and a harness extractor that uses ScanInput.GetRealPath as documented,
+//	             then CleanUp
+//
+// Entry names and link targets may contain the token $SANDBOX, which is replaced by the absolute
+// path of the sandbox root when the archive is rendered (absolute HOST paths of the decoys).
 type C06Scenario struct {
 	Op    string    `json:"op"`
 	Image ImageSpec `json:"image"`
+	// Requirer / Paths: the loader's file requirer for "v1", "tarball" and "scan" ("" = all).
+	Requirer string   `json:"requirer,omitempty"`
+	Paths    []string `json:"paths,omitempty"`
 	// OSFaults (tier 2): the K-th call of Op inside image.go / unpack.go fails with Errno; for
 	// Op "Copy" N bytes are copied first (a disk that fills up in the middle of a write).
 	OSFaults []OSFaultPlan `json:"os_faults,omitempty"`
@@ -60,10 +77,10 @@ func errnoOf(s string) error {
 
 // installOSFaults arms the build-time redirected os.* / io.Copy calls of the loader and the
 // unpacker; the returned function disarms them and reports what fired.
-func installOSFaults(plans []OSFaultPlan, out *sim.Outcome) func() int {
-	if len(plans) == 0 {
-		return func() int { return 0 }
-	}
+// hostJail is the jail of the current run's sandbox (runs are serial in a worker).
+var hostJail string
+
+func installOSFaults(plans []OSFaultPlan, out *sim.Outcome, removes *[]string) func() int {
 	seen := map[string]int{}
 	fired := 0
 	hit := func(op string) *OSFaultPlan {
@@ -82,7 +99,17 @@ func installOSFaults(plans []OSFaultPlan, out *sim.Outcome) func() int {
 	}
 	verifshim.OSFault = func(op, path string) error {
 		if op == "Remove" || op == "RemoveAll" {
-			return nil // clean-up itself is never made to fail: its failure could not be cleaned up
+			// clean-up itself is never made to fail (its failure could not be cleaned up), but what it
+			// is pointed at is recorded
+			if removes != nil {
+				*removes = append(*removes, op+" "+path)
+			}
+			// never let a (mutated) loader delete anything of the real host: outside the jail the call
+			// is refused instead of executed
+			if abs, err := filepath.Abs(path); err != nil || !within(hostJail, filepath.Clean(abs)) {
+				return &fs.PathError{Op: strings.ToLower(op), Path: path, Err: syscall.EPERM}
+			}
+			return nil
 		}
 		if p := hit(op); p != nil {
 			return &fs.PathError{Op: strings.ToLower(op), Path: path, Err: errnoOf(p.Errno)}
@@ -103,7 +130,7 @@ func installOSFaults(plans []OSFaultPlan, out *sim.Outcome) func() int {
 
 func (C06) ID() string { return "C06" }
 func (C06) Rule() string {
-	return "(image) 1-3 layer archives whose entry names and link targets are assembled from '..', '.', '', '/', a 300-byte component, names of the sandbox's decoy siblings (target-evil, targetX: string prefix of the target), outside, cwd, tmp, and the names of links declared earlier; regular, directory, symlink and hard-link entries in any order and layer, plus seeded attack sequences (link chain 'up -> .', 'esc -> up/..' then a write 0-2 levels below it; file then entry beneath it; link with empty target; dot-dot names into decoys); faults: layer reader error at byte k, truncated archive, and (tier 2, 1 in 3 scenarios) 1-2 OS-call failures inside image.go / unpack.go through the build-time overlay: the k-th MkdirTemp / Mkdir / MkdirAll / OpenFile / Create / WriteFile / Symlink fails with ENOSPC / EMFILE / EACCES, io.Copy fails after n bytes; entry points FromV1Image, FromTarball (+CleanUp), UnpackSquashed, UnpackSquashedFromTarball into sandbox/target; the WHOLE jail (target, decoys, outside, cwd, TMPDIR, harness inputs, 8 directory levels above) is snapshotted (type, link target, size, mode, hash) before and after every call; evaluation = one call sequence on one scenario; non-trivial = at least one entry name or link target lexically or through a link leaves the root, or a fault (reader or OS call) fired; distinct = distinct scenario JSON"
+	return "(image) 1-3 layer archives whose entry names and link targets are assembled from '..', '.', '', '/', a 300-byte component, names of the sandbox's decoy siblings (target-evil, targetX: string prefix of the target), outside, cwd, tmp, and the names of links declared earlier; regular, directory, symlink and hard-link entries in any order and layer, plus seeded attack sequences (link chain 'up -> .', 'esc -> up/..' then a write 0-2 levels below it; file then entry beneath it; link with empty target; dot-dot names into decoys); faults: layer reader error at byte k, truncated archive, and (tier 2, 1 in 3 scenarios) 1-2 OS-call failures inside image.go / unpack.go through the build-time overlay: the k-th MkdirTemp / Mkdir / MkdirAll / OpenFile / Create / WriteFile / Symlink fails with ENOSPC / EMFILE / EACCES, io.Copy fails after n bytes; names and link targets that are the absolute HOST paths of sandbox files / an empty directory ($SANDBOX/...); loader requirer all / none / path list; entry points FromV1Image, FromTarball (+CleanUp), UnpackSquashed, UnpackSquashedFromTarball into sandbox/target; the WHOLE jail (target, decoys, outside, cwd, TMPDIR, harness inputs, 8 directory levels above) is snapshotted (type, link target, size, mode, hash) before and after every call; every os.Remove / os.RemoveAll issued by image.go / unpack.go is recorded through the overlay and must point into TMPDIR (or the unpack target); 1 in 9 scenarios: a well-formed image holding a PE-named file and a package database is loaded and scanned with Scanner.ScanContainer (real dotnet/pe extractor + a harness extractor using ScanInput.GetRealPath as documented): the scan must leave every view readable with the same content and the whole jail unchanged; evaluation = one call sequence on one scenario; non-trivial = at least one entry name or link target lexically or through a link leaves the root, or a fault (reader or OS call) fired; distinct = distinct scenario JSON"
 }
 
 var c06Segs = []string{"..", "..", ".", "", "a", "b", "up", "esc", "sub", "target-evil", "targetX", "outside", "cwd", "tmp", "target", "keep.txt", "victim.txt", "poc.txt", "LONG", "n"}
@@ -123,13 +150,34 @@ func genHostilePath(rt *rapid.T, label string, links []string) string {
 		segs = append(segs, s)
 	}
 	p := strings.Join(segs, "/")
-	switch rapid.IntRange(0, 5).Draw(rt, label+".prefix") {
+	switch rapid.IntRange(0, 6).Draw(rt, label+".prefix") {
 	case 0:
 		p = "/" + p
 	case 1:
 		p = "./" + p
+	case 2: // the absolute host path of something in the sandbox
+		p = "$SANDBOX/" + rapid.SampledFrom(sandboxVictims).Draw(rt, label+".victim")
 	}
 	return p
+}
+
+// sandboxVictims: removable things of the sandbox (files, an empty directory, a link-free decoy).
+var sandboxVictims = []string{"outside/victim.txt", "victim.txt", "outside/empty", "sub/keep.txt", "cwd/keep.txt", "target-evil/keep.txt", "outside/keep"}
+
+// render replaces $SANDBOX in names and link targets.
+func render(spec *ImageSpec, root string) *ImageSpec {
+	out := *spec
+	out.Layers = nil
+	for _, l := range spec.Layers {
+		nl := l
+		nl.Entries = append([]Entry(nil), l.Entries...)
+		for i := range nl.Entries {
+			nl.Entries[i].Raw = strings.ReplaceAll(nl.Entries[i].Raw, "$SANDBOX", root)
+			nl.Entries[i].Target = strings.ReplaceAll(nl.Entries[i].Target, "$SANDBOX", root)
+		}
+		out.Layers = append(out.Layers, nl)
+	}
+	return &out
 }
 
 func countDotDot(s string) int {
@@ -153,7 +201,10 @@ func dotDotTotal(spec *ImageSpec) int {
 }
 
 func (C06) Gen(rt *rapid.T, tier string) any {
-	sc := &C06Scenario{Op: rapid.SampledFrom([]string{"v1", "v1", "tarball", "unpack", "unpack", "unpack-tar", "unpack-tar"}).Draw(rt, "op")}
+	sc := &C06Scenario{Op: rapid.SampledFrom([]string{"v1", "v1", "v1", "tarball", "unpack", "unpack", "unpack-tar", "unpack-tar", "scan"}).Draw(rt, "op")}
+	if sc.Op == "scan" {
+		return genC06Scan(rt, sc)
+	}
 	nl := rapid.IntRange(1, 3).Draw(rt, "layers")
 	if sc.Op == "unpack-tar" {
 		nl = 1
@@ -234,6 +285,16 @@ func (C06) Gen(rt *rapid.T, tier string) any {
 	}
 	if sc.Op == "v1" || sc.Op == "tarball" {
 		genHistory(rt, &sc.Image, nl, sc.Op == "v1")
+		sc.Requirer = rapid.SampledFrom([]string{"all", "all", "none", "paths"}).Draw(rt, "requirer")
+		if sc.Requirer == "paths" {
+			for _, l := range sc.Image.Layers {
+				for i := range l.Entries {
+					if rapid.IntRange(0, 2).Draw(rt, "required") == 0 {
+						sc.Paths = append(sc.Paths, strings.TrimPrefix(path.Clean(l.Entries[i].HeaderName()), "/"))
+					}
+				}
+			}
+		}
 	}
 	return sc
 }
@@ -264,6 +325,9 @@ func (C06) Run(t *testing.T, scAny any) *sim.Outcome {
 	sc := scAny.(*C06Scenario)
 	out := &sim.Outcome{Executions: 1}
 	ctxs := fmt.Sprintf("op=%s %s", sc.Op, sc.Image.String())
+	if sc.Requirer != "" && sc.Requirer != "all" {
+		ctxs = fmt.Sprintf("requirer=%s%v %s", sc.Requirer, sc.Paths, ctxs)
+	}
 	if len(sc.OSFaults) > 0 {
 		ctxs = fmt.Sprintf("os-faults=%v %s", sc.OSFaults, ctxs)
 	}
@@ -280,11 +344,38 @@ func (C06) Run(t *testing.T, scAny any) *sim.Outcome {
 		panic("harness: sandbox: " + err.Error())
 	}
 	defer sb.Close()
+	hostJail = sb.Jail
+	if sc.Op == "scan" {
+		return runC06Scan(sc, sb, out, ctxs)
+	}
+	// from here on the scenario with $SANDBOX replaced by this run's sandbox root
+	sc = &C06Scenario{Op: sc.Op, Image: *render(&sc.Image, sb.Root), Requirer: sc.Requirer, Paths: sc.Paths, OSFaults: sc.OSFaults}
+	for i, p := range sc.Paths {
+		sc.Paths[i] = strings.TrimPrefix(strings.ReplaceAll(p, "$SANDBOX", sb.Root), "/")
+	}
+	var removes []string
+	checkRemoves := func() {
+		for _, r := range removes {
+			op, p, _ := strings.Cut(r, " ")
+			if !filepath.IsAbs(p) {
+				p = filepath.Join(sb.Cwd, p)
+			}
+			p = filepath.Clean(p)
+			if within(sb.Tmp, p) || (strings.HasPrefix(sc.Op, "unpack") && within(sb.Target, p)) {
+				continue
+			}
+			out.Violate("remove-attempt-outside", "remove-attempt-outside:"+sc.Op+":"+op, "%s(%q) was called: a path outside the designated directory (whether something exists there is the host's business); %s", op, strings.ReplaceAll(p, sb.Jail, "$JAIL"), ctxs)
+		}
+		removes = nil
+	}
 
 	escaping := false
 	for _, l := range sc.Image.Layers {
 		for i := range l.Entries {
 			e := &l.Entries[i]
+			if strings.HasPrefix(e.HeaderName(), sb.Root) || strings.HasPrefix(e.Target, sb.Root) {
+				escaping = true
+			}
 			if strings.HasPrefix(path.Clean(e.HeaderName()), "..") || strings.Contains(e.Target, "..") || strings.HasPrefix(e.HeaderName(), "esc/") {
 				escaping = true
 			}
@@ -325,16 +416,18 @@ func (C06) Run(t *testing.T, scAny any) *sim.Outcome {
 		before := sb.Snapshot()
 		var img *image.Image
 		var simg *SimImage
-		disarm := installOSFaults(sc.OSFaults, out)
+		disarm := installOSFaults(sc.OSFaults, out, &removes)
+		cfg := LoadOpts{Requirer: sc.Requirer, Paths: sc.Paths}.config()
 		if sc.Op == "tarball" {
-			img, err = image.FromTarball(tarPath, image.DefaultConfig())
+			img, err = image.FromTarball(tarPath, cfg)
 		} else {
 			simg = NewSimImage(&sc.Image)
-			img, err = image.FromV1Image(simg, image.DefaultConfig())
+			img, err = image.FromV1Image(simg, cfg)
 		}
 		if disarm() > 0 {
 			escaping = true
 		}
+		checkRemoves()
 		after := sb.Snapshot()
 		if simg != nil {
 			for _, l := range simg.layers {
@@ -377,7 +470,7 @@ func (C06) Run(t *testing.T, scAny any) *sim.Outcome {
 			}
 		}
 		before := sb.Snapshot()
-		disarm := installOSFaults(sc.OSFaults, out)
+		disarm := installOSFaults(sc.OSFaults, out, &removes)
 		defer disarm()
 		if sc.Op == "unpack" {
 			simg := NewSimImage(&sc.Image)
@@ -394,6 +487,7 @@ func (C06) Run(t *testing.T, scAny any) *sim.Outcome {
 		if disarm() > 0 {
 			escaping = true
 		}
+		checkRemoves()
 		hist = append(hist, fmt.Sprintf("unpack: %v", err == nil))
 		if err != nil {
 			out.Count("unpack_failed", 1)
@@ -439,4 +533,127 @@ func checkLinks(out *sim.Outcome, op, dir, ctxs string) {
 			out.Violate("link-escape", "link-escape:"+op, "symlink %s -> %q left in the designated directory resolves to %s, outside %s; %s", p, e.Link, res, dir, ctxs)
 		}
 	}
+}
+
+// ---------------------------------------------------------------------------------------
+// op "scan": a container scan of a loaded image does not touch the image's files.
+
+// realPathExtractor uses ScanInput.GetRealPath the way its documentation (and os/rpm, dotnet/pe)
+// say: on a virtual file system the file is copied to a temporary directory which the caller
+// removes when done.
+type realPathExtractor struct{ calls *int }
+
+func (realPathExtractor) Name() string                       { return "harness/realpath" }
+func (realPathExtractor) Version() int                       { return 1 }
+func (realPathExtractor) Requirements() *plugin.Capabilities { return &plugin.Capabilities{} }
+func (realPathExtractor) FileRequired(api filesystem.FileAPI) bool {
+	return strings.HasSuffix(api.Path(), "Packages.db")
+}
+func (e realPathExtractor) Extract(_ context.Context, in *filesystem.ScanInput) (inventory.Inventory, error) {
+	*e.calls++
+	p, err := in.GetRealPath()
+	if err != nil {
+		return inventory.Inventory{}, err
+	}
+	if in.Root == "" {
+		defer os.RemoveAll(filepath.Dir(p))
+	}
+	b, err := os.ReadFile(p)
+	if err != nil {
+		return inventory.Inventory{}, err
+	}
+	var inv inventory.Inventory
+	for _, nv := range parseList(b) {
+		inv.Packages = append(inv.Packages, &extractor.Package{Name: nv[0], Version: nv[1], Locations: []string{in.Path}})
+	}
+	return inv, nil
+}
+func (realPathExtractor) ToPURL(p *extractor.Package) *purl.PackageURL {
+	return &purl.PackageURL{Type: "generic", Name: p.Name, Version: p.Version}
+}
+func (realPathExtractor) Ecosystem(*extractor.Package) string { return "sim" }
+
+var c06ScanFiles = []string{"app/tool.exe", "app/lib/helper.dll", "app/appsettings.json", "var/lib/pkg/Packages.db", "var/lib/pkg/.lock", "opt/x/Packages.db", "etc/motd"}
+
+func genC06Scan(rt *rapid.T, sc *C06Scenario) *C06Scenario {
+	nl := rapid.IntRange(1, 3).Draw(rt, "layers")
+	for i := 0; i < nl; i++ {
+		var l LayerSpec
+		used := map[string]bool{}
+		for j, n := 0, rapid.IntRange(1, 5).Draw(rt, "entries"); j < n; j++ {
+			p := rapid.SampledFrom(c06ScanFiles).Draw(rt, "path")
+			if used[p] {
+				continue
+			}
+			used[p] = true
+			data := fmt.Sprintf("pkg%d 1.%d.0\n", j, i)
+			if strings.HasSuffix(p, ".exe") || strings.HasSuffix(p, ".dll") {
+				data = "MZ" + strings.Repeat("\x00", rapid.IntRange(0, 70).Draw(rt, "pe.pad")) + "PE\x00\x00 not really"
+			}
+			l.Entries = append(l.Entries, Entry{Kind: "f", Path: p, Perm: 0o644, Data: data})
+		}
+		l.Chunk = genChunk(rt, "chunk")
+		sc.Image.Layers = append(sc.Image.Layers, l)
+	}
+	genHistory(rt, &sc.Image, nl, true)
+	sc.Requirer = rapid.SampledFrom([]string{"all", "all", "paths"}).Draw(rt, "requirer")
+	if sc.Requirer == "paths" {
+		sc.Paths = []string{"app/tool.exe", "app/lib/helper.dll", "var/lib/pkg/Packages.db", "opt/x/Packages.db"}
+	}
+	return sc
+}
+
+func runC06Scan(sc *C06Scenario, sb *Sandbox, out *sim.Outcome, ctxs string) *sim.Outcome {
+	before := sb.Snapshot()
+	img, err := image.FromV1Image(NewSimImage(&sc.Image), LoadOpts{Requirer: sc.Requirer, Paths: sc.Paths}.config())
+	if err != nil {
+		out.Violate("load-failed", "load-failed:scan-op", "loading a well-formed image failed: %v; %s", err, ctxs)
+		return out
+	}
+	defer img.CleanUp()
+	viewsBefore, _ := ObserveImage(img, c06ScanFiles)
+	loaded := sb.Snapshot()
+	calls := 0
+	res, err := scalibr.New().ScanContainer(context.Background(), img, &scalibr.ScanConfig{
+		FilesystemExtractors: []filesystem.Extractor{dotnetpe.New(dotnetpe.DefaultConfig()), realPathExtractor{calls: &calls}},
+		// dotnet/pe asks for a Windows scan environment (the image is a Windows container)
+		Capabilities: &plugin.Capabilities{OS: plugin.OSWindows}})
+	if err != nil || res == nil {
+		out.Violate("scan-failed", "scan-failed:scan-op", "ScanContainer failed: %v; %s", err, ctxs)
+		return out
+	}
+	out.Count("getrealpath_extractions", int64(calls))
+	out.Nontrivial = calls > 0
+	scanned := sb.Snapshot()
+	extractRel, _ := filepath.Rel(sb.Root, img.ExtractDir)
+	for _, c := range Diff(loaded, scanned) {
+		area := Area(c.Path)
+		if within(extractRel, c.Path) {
+			area = "extract-dir"
+		}
+		out.Violate("scan-changed-disk", fmt.Sprintf("scan-changed-disk:%s-%s:%s", c.Op, c.Type, area), "ScanContainer %s %s %s (%s); %s", c.Op, c.Type, c.Path, c.Desc, ctxs)
+	}
+	viewsAfter, _ := ObserveImage(img, c06ScanFiles)
+	if a, b := sim.FP(viewsBefore), sim.FP(viewsAfter); a != b {
+		detail := ""
+		for i := range viewsBefore {
+			for _, p := range sortedKeys(viewsBefore[i].Walk) {
+				if i < len(viewsAfter) && viewsBefore[i].Walk[p] != viewsAfter[i].Walk[p] {
+					detail = fmt.Sprintf("view %d: %s was %s, after the scan %s", i, p, viewsBefore[i].Walk[p], viewsAfter[i].Walk[p])
+					break
+				}
+			}
+			if detail != "" {
+				break
+			}
+		}
+		out.Violate("scan-changed-views", "scan-changed-views", "the image's views differ after ScanContainer: %s; %s", detail, ctxs)
+	}
+	img.CleanUp()
+	for _, c := range Diff(before, sb.Snapshot()) {
+		out.Violate("tmp-leak", "tmp-leak:scan:after-cleanup", "after scan and CleanUp the sandbox is not as before: %s %s (%s); %s", c.Op, c.Path, c.Desc, ctxs)
+	}
+	out.HistoryFP = sim.FP(viewsBefore)
+	dedupeByKey(out)
+	return out
 }
